@@ -53,7 +53,7 @@ CHECKS = {
                        "in {Panic, Fatal} and not all(LnoInterrupt) and (not testing or any(Linterruptalways)); Panic = Go panic with the "
                        "message as value, Fatal = os.Exit(-3); the complete record is on the error writer before termination; no other "
                        "severity terminates.",
-        "bounds": {"quick": "message \"m\" or a text with markup and entities; severities of LogAttrs/Logit incl. two registered levels gated as Panic and as Fatal; recorded package level arbitrary; LogAttrs/Logit with every argument shape; 61 entry points x 3 formats x all int64 levels x testing/production x all combinations of the non-printing flag bits; "
+        "bounds": {"quick": "a real context or a nil context on a logger with registered context keys; message \"m\" or a text with markup and entities; severities of LogAttrs/Logit incl. two registered levels gated as Panic and as Fatal; recorded package level arbitrary; LogAttrs/Logit with every argument shape; 61 entry points x 3 formats x all int64 levels x testing/production x all combinations of the non-printing flag bits; "
                             "LogAttrs/Logit severities -1..13; message 'm'",
                    "thorough": "same (the space is covered completely at quick)"},
         "outside": "the exit status as seen by the parent process (253 = OS truncation of -3); loggers with a log/slog.Handler option",
@@ -70,7 +70,7 @@ CHECKS = {
                        "successful registration with a symbolic title all name/text/JSON round trips return the level. T: symbolic option "
                        "set: tags, gating as the treated-as level (all int64 logger levels), routing to the error device. B: the same round "
                        "trips and ShortTag widths for the 12 built-in levels.",
-        "bounds": {"quick": "R also with two registrations (1-byte titles); titles: every ASCII string of length 1..3 (R) / 1..2 (N); 1 registration; all int64 values",
+        "bounds": {"quick": "L: name / short tag / record looked up before the value is registered; R also with two registrations (1-byte titles); titles: every ASCII string of length 1..3 (R) / 1..2 (N); 1 registration; all int64 values",
                    "thorough": "titles of length 1..4 (R) / 1..3 (N); 2 registrations (R)"},
         "outside": "non-ASCII titles (Unicode case folding); short tags longer than the slot width",
         "assumptions": ["environment stubs as in C01"],
@@ -80,6 +80,7 @@ CHECKS = {
              "covers": ["C17R:collision", "C17R:refused", "C17R:registered"]},
             {"harness": "VH_C17R", "quick": {"regs": 2, "title": 1}, "thorough": {"regs": 2, "title": 2}, "covers": ["C17R:collision", "C17R:refused", "C17R:registered"]},
             {"harness": "VH_C17N", "quick": {"title": 2}, "thorough": {"title": 3}, "covers": ["C17N:registered"]},
+            {"harness": "VH_C17L", "covers": ["C17L:registered"]},
             {"harness": "VH_C17T", "covers": ["C17T:registered", "C17T:done"]},
         ],
     },
@@ -189,7 +190,7 @@ CHECKS = {
                        "(one for the error device); the harness keeps the configuration the sequence denotes (set replaces, add appends, "
                        "remove deletes, reset restores defaults) and a probe record of a chosen severity must reach exactly the writers the "
                        "routing rule selects, each once; a LevelSettable destination must have been told the severity before its Write.",
-        "bounds": {"quick": "sequences of <=2 operations on a fresh logger, 10 probe severities; New(...) with <=3 of the nine writer option constructors (set/add normal and error writers, add/remove/reset per-level writers for two levels, reset all); inductive step: ONE operation from every configuration with <=2 normal, <=1 error and <=1 per-level (Info) writers over the pool (136080 states x operations x probes), which covers histories of any length over such configurations",
+        "bounds": {"quick": "probe records incl. the blank Print-severity record; sequences of <=2 operations on a fresh logger, 10 probe severities; New(...) with <=3 of the nine writer option constructors (set/add normal and error writers, add/remove/reset per-level writers for two levels, reset all); inductive step: ONE operation from every configuration with <=2 normal, <=1 error and <=1 per-level (Info) writers over the pool (136080 states x operations x probes), which covers histories of any length over such configurations",
                    "thorough": "sequences of 3 operations; New(...) as quick"},
         "outside": "longer sequences; OffLevel probes (discarded by design)",
         "assumptions": ["os.Stdout/os.Stderr are recording sinks"],
@@ -208,7 +209,7 @@ CHECKS = {
                        "order, with the identical complete payload; at most one diagnostic record, a warning, to the warning destinations, "
                        "none when the failing record was a warning or warnings are not admitted; attempts bounded by |selected|+|warning "
                        "set|; a final call with faults switched off is delivered normally (no sticky state).",
-        "bounds": {"quick": "severities incl. Print-severity records with messages m / empty / two newlines; 1 faulty call + 1 recovery call; 6 severities", "thorough": "2 faulty calls + 1 recovery call"},
+        "bounds": {"quick": "failing destinations report a comparable or an uncomparable (slice-typed) error; severities incl. Print-severity records with messages m / empty / two newlines; 1 faulty call + 1 recovery call; 6 severities", "thorough": "2 faulty calls + 1 recovery call"},
         "outside": "longer call sequences; writers that panic",
         "assumptions": ["os.Stdout/os.Stderr are recording sinks"],
         "runs": [
@@ -226,7 +227,7 @@ CHECKS = {
                        "are no further arguments; 3 formats; verbs Error..Fail, Print, Println, Panic (no-interrupt). Asserted: the call "
                        "returns; admitted => one Write per selected destination, payload ends in newline, nothing elsewhere; not admitted "
                        "=> nothing anywhere; blank Print/Println => exactly one newline byte. A second run makes all 64 flag bits symbolic.",
-        "bounds": {"quick": "also in test-process mode (error values dumped after the record inside the one payload) with 2 call-site arguments; message <= 1 byte (all values); 1 argument of any kind (groups of <= 1 member of any kind) x 11 verbs; 2 arguments of any kind without nesting x 3 verbs; logger levels Trace/Warn/Off; flags run (all 64 flag bits symbolic): Info and Error, 3 formats, no arguments",
+        "bounds": {"quick": "argument kinds incl. a typed nil pointer and a non-nil pointer of a method-less type; also in test-process mode (error values dumped after the record inside the one payload) with 2 call-site arguments; message <= 1 byte (all values); 1 argument of any kind (groups of <= 1 member of any kind) x 11 verbs; 2 arguments of any kind without nesting x 3 verbs; logger levels Trace/Warn/Off; flags run (all 64 flag bits symbolic): Info and Error, 3 formats, no arguments",
                    "thorough": "message <= 2 bytes (all values); otherwise as quick, plus one argument in the all-flags run"},
         "outside": "values whose own methods panic, cyclic values (excluded by the property); longer argument lists",
         "assumptions": ["time.Now is a fixed instant; runtime.Callers answered from the engine's call stack"],
@@ -291,7 +292,7 @@ CHECKS = {
                        "or any history record under flags differing in one bit) must observe the same payload for the same key, so state cached "
                        "in package variables cannot be warmed by the check itself; a difference is confirmed by running both executions natively "
                        "as two processes.",
-        "bounds": {"quick": "havoc form: severities incl. a level registered with a foreground colour only; stale buffer 2 bytes, stale strings 1-2 bytes, 2 stale colour values each; 3 formats x 2 UTC modes x 4 severities x 3 messages x 5 attribute lists (incl. a group last, an error, a time.Time keyed 'time' last)",
+        "bounds": {"quick": "H/X shapes incl. a record that outgrows the formatting buffer's initial capacity; havoc form: severities incl. a level registered with a foreground colour only; stale buffer 2 bytes, stale strings 1-2 bytes, 2 stale colour values each; 3 formats x 2 UTC modes x 4 severities x 3 messages x 5 attribute lists (incl. a group last, an error, a time.Time keyed 'time' last)",
                    "thorough": "same space (covered at quick)"},
         "outside": "user marshallers that read from the PrintCtx (move off); the pooled attribute slice of logContext (its cells are never read beyond len; C08 checks what is put into that pool); histories of more than one real record (covered by the havoc form for the fields it knows)",
         "assumptions": ["sync.Pool hands back the object put last (engine model; natively true on one goroutine without GC)"],
@@ -337,11 +338,11 @@ CHECKS = {
                        "bridge) is called from a closure that records its own function and line; the closure runs under a chain of four "
                        "wrappers; the logger skips n frames; the record (3 formats; root, child and default logger) must name the closure "
                        "(n=0) or the wrapper n levels up with that wrapper's call line.",
-        "bounds": {"quick": "default logger installed as the root wrapper or as the *Entry itself; an earlier SetSkip before the one in force; 57 entry points (incl. printf verbs with a plain format) x 3 formats x 4 logger kinds (root, child, default logger's tree, one of two WithSkip siblings) x skip 0..2", "thorough": "skip 0..4"},
+        "bounds": {"quick": "default logger installed as the root wrapper or as the *Entry itself; an earlier SetSkip before the one in force; 57 entry points (incl. printf verbs with a plain format) x 3 formats x 4 logger kinds (root, child, default logger's tree, one of two WithSkip siblings) x skip 0..4", "thorough": "same"},
         "outside": "identity between the Go runtime's frame elision/inlining and go/ssa's notion of synthetic wrapper: trusted, cross-validated because every counterexample is replayed natively",
         "assumptions": ["runtime.Callers answered from the engine's call stack"],
         "runs": [
-            {"harness": "VH_C14", "quick": {"skip": 2}, "thorough": {"skip": 4}, "covers": ["C14:called"]},
+            {"harness": "VH_C14", "quick": {"skip": 4}, "thorough": {"skip": 4}, "covers": ["C14:called"]},
         ],
     },
     "C15": {
@@ -381,7 +382,7 @@ CHECKS = {
                        "kinds (string, bool, int64/uint64 extremes, small widths, float, complex, Duration, Time, error, Stringer, []byte, "
                        "nil, []string/[]int/[]bool, struct via the fallback, groups nested to the bound incl. empty), caller field on/off: "
                        "members time/logger/level/msg/caller, one member per key, values preserved.",
-        "bounds": {"quick": "the message at five severities (Info, Error, OK, Fail, unregistered); string/message/key positions also with four longer texts containing HTML-like markup, entities, leading blanks and CR; float64 values incl. one that is exactly a float32; A: strings of <= 2 bytes; B: 1 attribute with group depth 1, and 2 attributes without groups",
+        "bounds": {"quick": "complex values incl. infinite and NaN imaginary parts, parsed back; the message at five severities (Info, Error, OK, Fail, unregistered); string/message/key positions also with four longer texts containing HTML-like markup, entities, leading blanks and CR; float64 values incl. one that is exactly a float32; A: strings of <= 2 bytes; B: 1 attribute with group depth 1, and 2 attributes without groups",
                    "thorough": "A: strings of <= 3 bytes; B as quick (group depth 2 did not finish in 30 minutes)"},
         "outside": "maps via the fallback formatter (fmt needs reflect.Value.MapRange: not encoded); user marshallers / value stringers (excluded by the property); longer strings",
         "assumptions": ["timestamp text comes from the real time formatter on a fixed instant"],
@@ -399,7 +400,7 @@ CHECKS = {
                        "including []byte, nil, error, Stringer, Duration and groups nested to the bound at every position. Asserted: one "
                        "line; time, logger, level, msg first; msg parses back; exactly one pair per attribute under its own (dotted) key "
                        "with its exact value; string-like values quoted; no forged pair.",
-        "bounds": {"quick": "attribute run also with debug mode switched on at run time (still a production process); messages also among four longer texts containing HTML-like markup, entities, leading blanks and CR; rune kernel: message or string value 'a'+r+'b' for EVERY Unicode scalar value r (strconv.IsPrint as an exact interval function); message <= 2 bytes at Info and <= 1 byte (empty, blank, special, ordinary) at Error, Debug, OK, Success, Fail and a registered custom severity (no attributes); 1 attribute of any kind (incl. times needing nine fractional digits and a zone offset, durations of 1ns / 25h1m1.000000001s / negative, parsed back to the exact value) incl. a group with <= 2 members of any kind at every position; keys of 1 byte", "thorough": "as quick, plus 2 top-level attributes of any kind (an attribute after a group); group depth 2 with 2-byte keys did not finish in 30 minutes"},
+        "bounds": {"quick": "keys may contain a backslash; attribute run also with debug mode switched on at run time (still a production process); messages also among four longer texts containing HTML-like markup, entities, leading blanks and CR; rune kernel: message or string value 'a'+r+'b' for EVERY Unicode scalar value r (strconv.IsPrint as an exact interval function); message <= 2 bytes at Info and <= 1 byte (empty, blank, special, ordinary) at Error, Debug, OK, Success, Fail and a registered custom severity (no attributes); 1 attribute of any kind (incl. times needing nine fractional digits and a zone offset, durations of 1ns / 25h1m1.000000001s / negative, parsed back to the exact value) incl. a group with <= 2 members of any kind at every position; keys of 1 byte", "thorough": "as quick, plus 2 top-level attributes of any kind (an attribute after a group); group depth 2 with 2-byte keys did not finish in 30 minutes"},
         "outside": "the multi-line error dump under go test / debugger (production mode is set by the harness); user marshallers",
         "assumptions": ["runs of spaces between pairs are not counted as pairs"],
         "runs": [
